@@ -333,6 +333,40 @@ pub fn run(mut run: Run) -> i32 {
             Err(e) => acc.viol(format!("prepared.relate(prepared) {}x{} panic", a.ty(), b.ty()), idx, || json!({"a": a.wkt(), "b": b.wkt(), "panic": e})),
         }
     });
+    // affine images of the families (oblique edges: the R-tree envelopes of the segments overlap far more than on axis-parallel input), prepared in
+    // either or both positions, each prepared geometry reused against every partner of its row
+    for f in imaps().iter().take(4) {
+        let img: Vec<Shape> = sub.iter().map(|s| map_shape(s, f)).collect();
+        let ni = img.len();
+        run.stage(&format!("pairs-affine-image {}", f.name), ni, |ia, acc| {
+            let a = &img[ia];
+            let pa = PreparedGeometry::from(&a.g);
+            let before = pa.verif_state();
+            for b in img.iter() {
+                acc.evals += 3;
+                let r = guard(|| {
+                    let pb = PreparedGeometry::from(&b.g);
+                    (im_string(&a.g.relate(&b.g)), im_string(&pa.relate(&b.g)), im_string(&b.g.relate(&pa)), im_string(&b.g.relate(&a.g)), im_string(&pa.relate(&pb)))
+                });
+                match r {
+                    Ok((exp, p1, p2, exp2, p3)) => {
+                        if p1 != exp || p2 != exp2 || p3 != exp {
+                            acc.viol(format!("prepared relate on affine images {}x{} differs from plain", a.ty(), b.ty()), ia, || json!({"a": a.wkt(), "b": b.wkt(), "plain": exp, "prepared.relate(b)": p1, "b.relate(prepared)": p2, "plain b.relate(a)": exp2, "prepared.relate(prepared)": p3, "map": f.name}));
+                            break;
+                        }
+                    }
+                    Err(e) => {
+                        acc.viol(format!("prepared relate on affine images {}x{} panic", a.ty(), b.ty()), ia, || json!({"a": a.wkt(), "b": b.wkt(), "panic": e}));
+                        break;
+                    }
+                }
+            }
+            acc.class(format!("affine-image row {}", a.ty()));
+            if pa.verif_state() != before {
+                acc.viol("prepared state changed by reuse (affine images)".into(), ia, || json!({"a": a.wkt()}));
+            }
+        });
+    }
     run.extra.insert("model_samples".into(), json!(samples));
     run.traces = run.transitions + run.stages.iter().map(|s| s.done).sum::<u64>();
     run.finish()
